@@ -26,9 +26,10 @@ def _c(pid, text, technique, note=''):
     CLAIMED[pid] = dict(text=text, note=COMMON_NOTE + (' ' + note if note else ''), technique=technique)
 
 _c('C02', 'Proved for all inputs over the counters regenerated from charger_state.py/base.py: each operation moves one counter by exactly one, refuses instead of leaving [0,total], '
-          'keeps the bounds invariant, touches nothing else. PARTIAL: the equation installed-free = #vehicles charging there over whole histories is decided by correspondence '
-          '(contention profile: many vehicles, one plug/stall, re-instruction from every activity) + the counts monitor, not yet by a theorem.',
-   'Coq proof over translated counter kernels + differential correspondence + invariant monitor')
+          'keeps the bounds invariant, touches nothing else. Proved over ALL finite histories of step operations with instructions from any controller (C02_counts_over_histories, by induction '
+          'through the macro frame theorem): for every station and installed plug type 0<=free<=installed, installed-free = number of vehicles charging on it there (directly or through the base), '
+          'waiting counter = number of vehicles queueing; for every base 0<=free<=total and total-free = vehicles parked or charging there; holds initially for a freshly loaded state.',
+   'Coq proof: translated counter kernels + state invariant by induction over operation histories (macro frame theorem); differential correspondence; invariant monitor')
 _c('C03', 'Proved on the step model: no instruction diverts a vehicle with passengers (whole state unchanged); pickup = fare credited once + request removed + one event, impossible for a '
           'non-waiting request; cancel removes only a timed-out waiting request with one event. PARTIAL: the per-request ledger over whole histories is decided by correspondence + ledger monitor.',
    'Coq proof of per-transition lemmas on the hand-written step model + correspondence + ledger monitor', 'No pooling; unique request ids.')
